@@ -52,6 +52,15 @@ def build(case):
     for rx, r in zip(rxns, case["rxns"]):
         if r["rule"] is not None:
             rx.gene_reaction_rule = c08.canon_print(r["rule"])
+    if case.get("prelude") == "rollback" and len(rxns) >= 1:
+        # an earlier block that removed reactions (and knocked a gene out) and was rolled back: the model is as before
+        order = [r.id for r in m.reactions]
+        with m:
+            m.remove_reactions(rxns[:2])
+            if len(m.genes):
+                m.genes[0].knock_out()
+        if [r.id for r in m.reactions] != order:
+            m.reactions.sort(key=lambda r: order.index(r.id))
     return m
 
 
@@ -226,6 +235,9 @@ def cases_for_network(rng, rxns, genes, quick):
                 ops.append(["setf", rng.choice(genes), rng.random() < 0.5])
         out.append({"rxns": rxns, "pre": [g for g in genes if rng.random() < 0.2], "ctx": rng.random() < 0.5,
                     "ops": ops, "kind": "mixed"})
+    for k, c in enumerate(out):
+        if k % 3 == 1:
+            c["prelude"] = "rollback"
     return out
 
 
